@@ -30,14 +30,20 @@ type c15Model struct {
 var c15Alphabet = []string{"a", "b", "c", "{x}", "{y}", "{id}", "users", "a-b"}
 
 // render writes the segments with slash noise. Noise bits: 1 = no leading slash,
-// 2 = doubled separators, 4 = trailing slash, 8 = doubled leading slash.
+// 2 = doubled separators, 4 = trailing slash, 8 = doubled leading slash, 16 = runs of three slashes (what joining a
+// prefix that ends in "/" with "/" and a route that starts with "/" gives), 32 = a run of four in front.
 func (e c15Entry) render() string {
 	sep := "/"
 	if e.Noise&2 != 0 {
 		sep = "//"
 	}
+	if e.Noise&16 != 0 {
+		sep = "///"
+	}
 	s := strings.Join(e.Segs, sep)
 	switch {
+	case e.Noise&32 != 0:
+		s = "////" + s
 	case e.Noise&8 != 0:
 		s = "//" + s
 	case e.Noise&1 == 0:
@@ -105,7 +111,7 @@ func c15Gen(t *rapid.T) c15Model {
 			e.Segs = rapid.SliceOfN(rapid.SampledFrom(c15Alphabet), 0, 4).Draw(t, "segs")
 		}
 		if rapid.IntRange(0, 3).Draw(t, "noisy") == 0 {
-			e.Noise = rapid.IntRange(0, 15).Draw(t, "noise")
+			e.Noise = rapid.IntRange(0, 63).Draw(t, "noise")
 		}
 		m.Entries = append(m.Entries, e)
 	}
